@@ -29,8 +29,8 @@ structure Dep where
   typ : Str
   cls : Str
   ver : Str          -- raw text of <version>, possibly with ${…}
-  wsKey : Bool       -- groupId/artifactId written with surrounding white space: `Read` (encoding/xml +
-                     -- maven.String) trims it, the writer's forkedxml decode does not
+  wsKey : Bool       -- groupId/artifactId written with surrounding white space (layout only: `Read` trims
+                     -- it, and since fix 5743d35a the writer compares `trimmedDependencyKey(rawDep)`)
 deriving Repr, DecidableEq
 
 structure Prp where
@@ -115,6 +115,10 @@ def buildPatch1 (pom : Pom) (ps : Patches) (u : Upd) : Patches :=
     if !containsProperty od.ver then { ps with deps := addPatch ps.deps direct } else
     match gen od.ver u.to with
     | .ok assigns =>
+      -- fix f5d17448: every property name must be defined (by name) in some local pom.xml
+      if !(asMap assigns).all (fun a => pom.props.any (fun p => p.name = a.1)) then
+        { ps with deps := addPatch ps.deps direct }
+      else
       let depOrigin : Str :=
         if hasPrefix sProfile od.origin then cutSuffix od.origin ('@' :: sManagement) else []
       addProps pom.props depOrigin direct (asMap assigns) ps
@@ -128,11 +132,10 @@ def applyProp (ps : Patches) (p : Prp) : Prp :=
   | some v => { p with value := v }
   | none => p
 
-/-- `writeDependency` on one `<dependency>`: `for patch := range patches { if patch.DependencyKey == rawDep.Key() … }`.
+/-- `writeDependency` on one `<dependency>`: `for patch := range patches { if patch.DependencyKey == trimmedDependencyKey(rawDep) … }`.
 (Several patches with the same key and different versions would make the result depend on Go's map
 order; the generator never addresses one key twice.) -/
 def applyDep (ps : Patches) (d : Dep) : Dep :=
-  if d.wsKey then d else
   match ps.deps.reverse.find? (fun p => p.origin = d.origin ∧ p.key = d.key) with
   | some p => { d with ver := p.newReq }
   | none => d
